@@ -17,7 +17,7 @@ def sh(cmd, **kw):
 
 def main():
     seed = os.path.abspath(sys.argv[1])
-    props, tier, jobs = None, "quick", 1
+    props, tier, jobs, tag = None, "quick", 1, None
     a = sys.argv[2:]
     while a:
         if a[0] == "--props":
@@ -28,6 +28,10 @@ def main():
             a = a[2:]
         elif a[0] == "--jobs":
             jobs = int(a[1])
+            a = a[2:]
+        elif a[0] == "--tag":
+            # write result.<tag>.json instead of result.<tier>.json (keeps a fuller earlier record)
+            tag = a[1]
             a = a[2:]
         else:
             a = a[1:]
@@ -85,7 +89,7 @@ def main():
            "target_detected": target in detected,
            "with_failing_input": [p for p, v in results.items() if v["violation"] and not v["violation"][0].rstrip().endswith("no-failing-input-found")],
            "results": results}
-    json.dump(out, open(os.path.join(seed, f"result.{tier}.json"), "w"), indent=1)
+    json.dump(out, open(os.path.join(seed, f"result.{tag or tier}.json"), "w"), indent=1)
     print("target", target, "detected" if target in detected else "MISSED", "| all:", detected)
     return 0
 
